@@ -2,8 +2,34 @@
 from props import lifecycle
 
 
+import json
+import vlib
+
+
+def td_part(run):
+    """the real test directory (WithMTLS / default TLS) against every client kind; validated with TdTlsTrace"""
+    obs = run.path("o18td.ndjson")
+    run.harness(["c18td", "-out", obs], timeout=600)
+    rows = vlib.read_ndjson(obs)
+    res = run.tlc("TdTlsTrace", "INIT InitT\nNEXT NextT\nINVARIANT OnlySatisfyingClientsAreServed\nCHECK_DEADLOCK FALSE\n", env={"OBS": obs}, workers=1, cont=True, timeout=600)
+    viols, seen = [], set()
+    for v in res.violations:
+        if v["states"]:
+            l = int(v["states"][-1]["vars"].get("l", "0"))
+            if 1 <= l <= len(rows):
+                o = rows[l - 1]
+                key = (o["mode"], o["kind"], o["served"])
+                if key in seen:
+                    continue
+                seen.add(key)
+                viols.append({"signature": {"monitor": "OnlySatisfyingClientsAreServed", "mode": o["mode"], "kind": o["kind"], "served": o["served"]},
+                              "what": "test directory (%s): a %s client was %s" % (o["mode"], o["kind"], "served" if o["served"] else "not served: " + o["detail"]),
+                              "replay": {"observation": o}})
+    return viols, len(rows)
+
+
 def check(run):
-    return lifecycle.check(run, "C18", ["tls-server", "tls-mtls"])
+    return lifecycle.check(run, "C18", ["tls-server", "tls-mtls"], extra=td_part)
 
 
 def replay(run, path):
